@@ -71,19 +71,28 @@ def norm(vs, root, cwd):
     return sorted(out)
 
 
+EXPLICIT_CONFIGS = {
+    # an explicit configuration file replaces whatever the project root carries - for the CLI (--config F) and for Linter(config_file=F) alike
+    "cfg_alt.yaml": "nesting:\n  max_nesting_depth: 1\nmagic-numbers:\n  allowed_numbers: [0]\nsrp:\n  max_methods: 1\ndry:\n  enabled: true\n  min_duplicate_lines: 4\n",
+    "cfg_comment_only.yaml": "# nothing configured here\n",
+    "cfg_empty.json": "{}",
+}
+
+
 def lib_lint(arg):
-    root, target, rule = arg
+    root, target, rule = arg[:3]
+    cfg_file = arg[3] if len(arg) > 3 else None
     os.chdir(root)
     os.environ["THAILINT_VERIF_FAILLOG"] = os.path.join(root, ".git", "faillog")
     from src import Linter
 
-    vs = Linter(project_root=root).lint(target, rules=[rule])
+    vs = (Linter(config_file=os.path.join(root, cfg_file), project_root=root) if cfg_file else Linter(project_root=root)).lint(target, rules=[rule])
     return norm([{"rule_id": v.rule_id, "file_path": str(v.file_path), "line": v.line, "column": v.column, "message": v.message} for v in vs], root, root)
 
 
 def exec_case(case):
     root = runner.new_dir("t")
-    runner.write_tree(root, case["files"])
+    runner.write_tree(root, dict(case["files"], **EXPLICIT_CONFIGS))
     cmd = case["cmd"]
     srcs = sorted(f for f in case["files"] if not f.startswith("."))
     out = {"per_file": {}, "runs": 0}
@@ -106,6 +115,14 @@ def exec_case(case):
         out["lib"][t] = {"v": r["value"]} if r.get("ok") else {"error": str(r)[:400]}
         out["lib_cli"] = out.get("lib_cli", {})
         out["lib_cli"][t] = out["dir"].get(t) or out["per_file"].get(t) or cli([t])
+    # the same target under an explicit configuration file, CLI vs library
+    name = sorted(EXPLICIT_CONFIGS)[case.get("cfg_pick", 0) % len(EXPLICIT_CONFIGS)]
+    r = runner.cli([cmd, "--config", name, "--format", "json", "src"], root)
+    out["runs"] += 1
+    vs = r.violations()
+    c_res = {"error": "exit %s: %s" % (r.exit, r.err[-300:])} if vs is None or r.exit not in (0, 1) else {"v": norm(vs, root, root)}
+    lr = runner.call(lib_lint, (root, "src", LIB_RULE[cmd], name), timeout=120)
+    out["explicit_cfg"] = {"name": name, "cli": c_res, "lib": {"v": lr["value"]} if lr.get("ok") else {"error": str(lr)[:400]}}
     return out
 
 
@@ -134,7 +151,7 @@ def run(ctx):
             lists.append(["src/bait_b%d.py" % i, "src/bait_a%d.py" % i])
             lists.append(["tools", "lib"] if any(f.startswith("tools/") for f in srcs) else ["lib", "src/inner"])
             lib_targets = [".", "src", rng.choice(srcs), rng.choice([f for f in srcs if "other" in f])]
-            cases.append({"files": files, "cmd": cmd, "dirs": [".", "src", "lib"], "lists": lists, "lib_targets": lib_targets, "id": "p%d:%s" % (i, cmd)})
+            cases.append({"files": files, "cmd": cmd, "dirs": [".", "src", "lib"], "lists": lists, "lib_targets": lib_targets, "id": "p%d:%s" % (i, cmd), "cfg_pick": len(cases)})
     outs = runner.pmap(exec_case, cases, timeout=900)
     for case, o in zip(cases, outs):
         if not o.get("ok"):
@@ -194,6 +211,21 @@ def run(ctx):
                     key = "lib-single-file-no-finalize:dry"
                 ctx.discrepancy(key, "%s target %s rules=[%r]: only CLI %r; only library %r" % (case["id"], t, LIB_RULE[cmd], only_cli[:2], only_lib[:2]),
                                 {"id": case["id"], "runs": [{"argv": [cmd, "--format", "json", t]}], "expected": only_cli[:5], "observed": only_lib[:5]}, files)
+        ec = v.get("explicit_cfg")
+        if ec:
+            ctx.count("explicit_config_cli_vs_lib_checked")
+            if "error" in ec["cli"] or "error" in ec["lib"]:
+                ctx.discrepancy("lib-error:%s" % cmd, "%s --config %s: %s" % (case["id"], ec["name"], ec["cli"].get("error") or ec["lib"].get("error")), {"id": case["id"]}, files)
+            else:
+                a, b = Counter(map(tuple, ec["cli"]["v"])), Counter(map(tuple, ec["lib"]["v"]))
+                if a or b:
+                    ctx.nontrivial([cmd, "cli-vs-lib-explicit-config", ec["name"]])
+                if a != b and cmd == "dry" and "dry:" not in EXPLICIT_CONFIGS[ec["name"]]:
+                    ctx.count("not_judged_dry_opt_in")  # `thailint dry` switches the opt-in rule on by itself; Linter.lint(rules=["dry"]) keeps `enabled` as configured: documentation silent
+                elif a != b:
+                    ctx.discrepancy("cli-vs-lib:explicit-config:%s" % cmd, "%s --config %s vs Linter(config_file=...): only CLI %r; only library %r" % (
+                        case["id"], ec["name"], list((a - b).elements())[:2], list((b - a).elements())[:2]),
+                        {"id": case["id"], "runs": [{"argv": [cmd, "--config", ec["name"], "--format", "json", "src"]}]}, dict(files, **EXPLICIT_CONFIGS))
     ctx.sample({"case": cases[0]["id"], "dirs": cases[0]["dirs"], "lists": cases[0]["lists"], "lib_targets": cases[0]["lib_targets"],
                 "files": sorted(cases[0]["files"])})
     ctx.inconclusive_if(ctx.counters["cli_vs_lib_checked"] < 40 or ctx.counters["union_dir_checked"] < 40, "too few comparisons")
